@@ -273,12 +273,20 @@ void add_sim_time_us(uint64_t us) {
   if (g_run) g_run->sim_time_us += us;
 }
 
+static int g_entry_errno = -1;
+void set_entry_errno(int e) { g_entry_errno = e; }
+
 void set_context(const std::string& ctx) {
-  Quiet quiet;
-  Slot* s = g_slot ? g_slot : &g_local_slot;
-  size_t n = std::min(ctx.size(), sizeof(s->context) - 1);
-  memcpy(s->context, ctx.data(), n);
-  s->context[n] = 0;
+  {
+    Quiet quiet;
+    Slot* s = g_slot ? g_slot : &g_local_slot;
+    size_t n = std::min(ctx.size(), sizeof(s->context) - 1);
+    memcpy(s->context, ctx.data(), n);
+    s->context[n] = 0;
+  }
+  // engines set the context right before they call into the library: that is where the caller's errno is
+  // whatever some earlier, unrelated call left behind
+  if (g_entry_errno >= 0 && !ctx.empty()) errno = g_entry_errno;
 }
 
 // ------------------------------------------------------------------ choices
@@ -1413,6 +1421,7 @@ int driver_main(int argc, char** argv, const Engine& e) {
     uint64_t hist_start = 0, hist_count = 0; // reproduces only after this worker history (see TapeSpec)
   };
   std::vector<std::string> unreproduced;
+  std::vector<std::string> info_notes;
   std::vector<Group> groups;
   // candidates that reproduce only after re-creating a worker's history form their own groups, so that an
   // unreliable representative never shadows members of the same class that reproduce in a fresh process
@@ -1488,6 +1497,35 @@ int driver_main(int argc, char** argv, const Engine& e) {
     }
     Outcome o1 = eval_forked(sp, true, 10.0);
     Outcome o2 = is_hang ? o1 : eval_forked(sp, true, 10.0);
+    if (!g.hist_count && !is_hang && !same_violation(o1, g.cls, g.key)) {
+      bool agree = o1.kind != Outcome::OK && o2.kind != Outcome::OK && o1.cls == o2.cls && o1.key == o2.key && o1.hash == o2.hash && o1.tape == o2.tape;
+      if (agree) {
+        // The run violates deterministically in a fresh process, but under another class than inside the
+        // long-lived worker: the code under test keeps state across calls (a static cache, say), so what the
+        // worker saw depended on its earlier runs. The fresh-process class is the reproducible one.
+        info_notes.push_back(strprintf("run %llu was reported as %s [%s] inside a long-lived worker and is %s [%s] in a fresh process; the fresh-process result is used", (unsigned long long)g.idx,
+            g.cls.c_str(), g.key.c_str(), o1.cls.c_str(), o1.key.c_str()));
+        bool seen = false;
+        for (auto& h : groups) seen |= (&h != &g && h.cls == o1.cls && h.key == o1.key && h.hist_count == 0);
+        if (seen) continue;
+        g.cls = o1.cls;
+        g.key = o1.key;
+      } else if (o1.kind == Outcome::OK && o2.kind == Outcome::OK) {
+        // not a violation in a fresh process: re-create the history of the worker that reported it
+        sp.warm_seed = seed;
+        sp.warm_start = g.idx % (uint64_t)workers;
+        sp.warm_stride = workers;
+        sp.warm_count = g.idx / (uint64_t)workers;
+        o1 = eval_forked(sp, true, 90.0);
+        o2 = eval_forked(sp, true, 90.0);
+        if (same_violation(o1, g.cls, g.key) && same_violation(o2, g.cls, g.key)) {
+          g.hist_start = sp.warm_start;
+          g.hist_count = sp.warm_count;
+          info_notes.push_back(strprintf("run %llu: %s [%s] needs the %llu earlier runs of its worker to show (state kept by the code under test across calls)", (unsigned long long)g.idx, g.cls.c_str(),
+              g.key.c_str(), (unsigned long long)sp.warm_count));
+        }
+      }
+    }
     if (g.hist_count && !(same_violation(o1, g.cls, g.key) && same_violation(o2, g.cls, g.key))) {
       // a sanitizer report that needed the worker's accumulated state and does not come back reliably even
       // when that history is re-created (ThreadSanitizer keeps a bounded, pseudo-randomly evicted access
@@ -1696,6 +1734,7 @@ int driver_main(int argc, char** argv, const Engine& e) {
   }
   for (auto& l : known_lines) printf("%s\n", l.c_str());
   remove_work_dir();
+  for (auto& u : info_notes) printf("note: %s\n", u.c_str());
   for (auto& u : unreproduced) printf("note: %s\n", u.c_str());
   if (!unreproduced.empty() && unknown_violations == 0 && !harness_fault) {
     harness_fault = true;
